@@ -111,6 +111,12 @@ Definition str_clear (s : str) : serr * str :=
 (* String::reset() *)
 Definition str_reset (s : str) : str := str_empty.
 
+(* String::swap(other) (std::swap of the raw representation), String& operator=(String&&) (swap, then other.reset()) and
+   String(String&&) (take the raw representation, other._reset_internal()): on plain Strings (round 6) *)
+Definition str_swap (a b : str) : str * str := (b, a).
+Definition str_move_assign (a b : str) : str * str := (b, str_reset a).
+Definition str_move_construct (b : str) : str * str := (b, str_empty).
+
 (* _op_string / _op_chars / _op_hex: an empty input clears on assign (repaired), is a no-op on append *)
 Definition str_op_text (mok : Z -> bool) (s : str) (op : sop) (text : list Z) : serr * str :=
   match text with
